@@ -482,6 +482,7 @@ def run(ctx):
     rule_e(ctx, R)
     rule_f(ctx, R, sector, scan_site)
     rule_g(ctx)
+    rule_h(ctx)
 
     # "the coordinate" in the statement is the one the reader hands out: the k-th read returns element k of the caller's slice and
     # advances by one (restated from C14-a / C14-b — a reader that skips, repeats or offsets breaks this property from mimic_rng.rs)
@@ -500,6 +501,21 @@ def rule_g(ctx):
     ctx.rule("C06-g", "[restated from C03-a] the edges the scan enumerates in index order are the caller's edges in the caller's order: from_graph stores "
                       "edge e of the input as topology[e] (id, endpoints, weight, mass flag), with dod and L of the whole graph as stated")
     restated_clause(ctx, "C06-g", "preprocessing::TropicalGraph::from_graph", "graph-dod", lambda: graph_dod_clause(ctx, "C06-g", topology=True))
+
+
+def rule_h(ctx):
+    """The J and ω the summand reads from the table are the statement's (restated from C04-a, C03-b/e/f)."""
+    from .kernels import gdod_clause, run_c03_flags, run_c03_loops, builder_roles, restated_clause
+    from .restate import run_restated
+    ctx.rule("C06-h", "ω(g) = [g≠∅]·(Σ_{e∈g} w_e − ℓ(g)·D/2 − [spanning(g)]·dod) + [g=∅]·1 as stored, entry by entry")
+    try:
+        bs, fg, tb, jrec = builder_roles(ctx)
+        restated_clause(ctx, "C06-h", tb.path, "generalized-dod", lambda: gdod_clause(ctx, "C06-h", tb))
+    except RoleLost as e:
+        ctx.note("C06-h: restated clause skipped — %s; the owning rules report it" % e)
+    run_c03_flags(ctx, "C06-i")
+    run_c03_loops(ctx, "C06-i", soft=True)
+    run_restated(ctx, [("C04", {"C04-a": "J(g) = Σ_e J(g∖e)/ω(g∖e), J(∅) = 1: the J values the summand reads"})])
 
 
 def rule_e(ctx, R):
